@@ -68,7 +68,12 @@ def clades_from_outputs(table_rows, newick, name_to_idx):
     problems = []
     for r in table_rows:
         cid = r["clone_id"]
-        idx = name_to_idx[r["mutation_id"]]
+        idx = name_to_idx.get(r["mutation_id"])
+        if idx is None:
+            # a mutation of a cluster that has no data point (the loader discarded the whole cluster): it can only be reported as an outlier
+            if cid != "-1":
+                problems.append("mutation %s belongs to a cluster without a data point but is reported in clone %s" % (r["mutation_id"], cid))
+            continue
         if cid == "-1":
             outliers.add(idx)
         elif cid in own:
@@ -125,7 +130,7 @@ def check_table(rows, header, newick, data, samples, tree_key_expected=None, clu
     name_to_idx = {str(dp.name): dp.idx for dp in data}
     if clusters is not None:
         cl_of = {str(m): str(c) for m, c in zip(clusters["mutation_id"], clusters["cluster_id"])}
-        name_to_idx = {str(m): name_to_idx[cl_of[str(m)]] for m in cl_of}
+        name_to_idx = {str(m): name_to_idx[cl_of[str(m)]] for m in cl_of if cl_of[str(m)] in name_to_idx}
     seen = {}
     for r in rows:
         seen[(r["mutation_id"], r["sample_id"])] = seen.get((r["mutation_id"], r["sample_id"]), 0) + 1
@@ -349,7 +354,7 @@ def run_c12_all_trees(tier="quick", seed=0):
     tmp = tempfile.mkdtemp(prefix="verif_c12_")
     try:
         for n, dims in ((1, 1), (2, 2), (3, 1)):
-            for clustered in (False, True):
+            for clustered in (False, True, "gaps"):
                 data, trees = scenario_trees(n, seed + n, dims=dims)
                 samples = ["S%d" % d for d in range(dims)]
                 clusters = None
@@ -360,6 +365,10 @@ def run_c12_all_trees(tier="quick", seed=0):
                     data = [DataPoint(dp.idx, dp.value, name="%d" % (10 + dp.idx), outlier_prob=dp.outlier_prob, outlier_prob_not=dp.outlier_prob_not) for dp in data]
                     trees = T.all_trees(data, outliers_allowed=True)
                     clusters = pd.DataFrame([{"mutation_id": "m%d_%d" % (dp.idx, j), "cluster_id": 10 + dp.idx} for dp in data for j in range(dp.idx + 1)])
+                    if clustered == "gaps":
+                        # clusters of the cluster file that the loader discarded entirely (no data point): one sorting before, one between, one after the kept ones
+                        extra = [{"mutation_id": "lost_a", "cluster_id": 3}, {"mutation_id": "lost_b", "cluster_id": 3}, {"mutation_id": "lost_c", "cluster_id": 99}]
+                        clusters = pd.concat([pd.DataFrame(extra[:2]), clusters, pd.DataFrame(extra[2:])], ignore_index=True)
                 td = EK.make_tree_dist(1.0)
                 for ti, tree in enumerate(trees):
                     cases += 1
@@ -369,7 +378,7 @@ def run_c12_all_trees(tier="quick", seed=0):
                     key = T.tree_key(tree)
                     for cmd in ("map", "topology", "consensus"):
                         tab, nwk, arch = os.path.join(tmp, "o.tsv"), os.path.join(tmp, "o.nwk"), os.path.join(tmp, "o.tar.gz")
-                        label = "%s on %s (%s)" % (cmd, T.key_str(key), "clustered" if clustered else "unclustered")
+                        label = "%s on %s (%s)" % (cmd, T.key_str(key), ("clustered with discarded clusters" if clustered == "gaps" else "clustered") if clustered else "unclustered")
                         try:
                             if cmd == "map":
                                 quiet(write_map_results, f, tab, nwk)
